@@ -93,6 +93,13 @@ func (batch *Batch) close() (err error) {
 		err = nil
 	}
 
+	if batch.err == nil {
+		// The batch does not own the connection anymore, reading from it
+		// after it was closed must not consume bytes that belong to other
+		// operations on the connection.
+		batch.err = io.EOF
+	}
+
 	if conn != nil {
 		conn.rdeadline.unsetConnReadDeadline()
 		conn.mutex.Lock()
